@@ -94,6 +94,9 @@ func main() {
 	if *replay != "" {
 		h.replayFile(*replay)
 	} else {
+		if *hints != "" {
+			h.replayFile(*hints)
+		}
 		if stage("corpus") {
 			h.corpus()
 		}
